@@ -170,3 +170,48 @@ Definition generate_hdr10plus (p : profile) (c : gconfig) (o_long : option bool)
   let c2 := fixup_l1 (mkG (g_cm40 c) long frame_count (g_min c) (g_max c) (Some v40) (g_l5 c) (g_l6 c) (g_defaults c) shots') in
   let* l := generate_list c2 base in
   encode_all p l.
+
+(* ---------------- shots from a madVR measurement file ---------------- *)
+(* generate_metadata_from_madvr: per scene its length, round(max_pq * 4095), round(avg_pq * 4095) as the
+   madvr_parse crate derives them, and - with --use-custom-targets on a file with flags = 3 - the codes
+   round(target_pq * 4095) of its frames (else []); L1 = (0, max, avg) per shot, (0, target, avg) per frame *)
+Fixpoint frame_edits_from (v40 : bool) (av : Z) (targets : list Z) (i : N) : list (N * list block) :=
+  match targets with
+  | [] => []
+  | tg :: t => (i, [l1_from_stats v40 0 tg av]) :: frame_edits_from v40 av t (i + 1)
+  end.
+
+Fixpoint madvr_shots (v40 : bool) (scenes : list (N * (Z * Z) * list Z)) (cfg_shots : list gshot) (k : nat) : list gshot :=
+  match scenes with
+  | [] => []
+  | (dur, (mx, av), targets) :: t =>
+      let s := mkShot dur [l1_from_stats v40 0 mx av] (frame_edits_from v40 av targets 0) in
+      let s := match nth_error cfg_shots k with Some o => copy_from_shot s o | None => s end in
+      s :: madvr_shots v40 t cfg_shots (S k)
+  end.
+
+(* MaxCLL / MaxFALL of the measurement header fill the config's L6 where it has 0 (u32 -> u16 truncation) *)
+Definition madvr_l6 (l6 : option block) (maxcll maxfall : Z) : option block :=
+  match l6 with
+  | Some b =>
+      match bvals b with
+      | [mx; mn; cll; fall] =>
+          Some (mkBlk (blevel b) (blen b)
+                      [mx; mn; (if (cll =? 0)%Z then (maxcll mod 65536)%Z else cll);
+                       (if (fall =? 0)%Z then (maxfall mod 65536)%Z else fall)] (bflag b))
+      | _ => Some b
+      end
+  | None => None
+  end.
+
+Definition generate_madvr (p : profile) (c : gconfig) (o_long : option bool) (base : rpu)
+           (frame_count : N) (scenes : list (N * (Z * Z) * list Z)) (maxcll maxfall : Z) : outcome (list (list N)) :=
+  let v40 := match g_l1cm c with Some v => v | None => g_cm40 c end in
+  let shots := madvr_shots v40 scenes (g_shots c) 0 in
+  let l6 := madvr_l6 (g_l6 c) maxcll maxfall in
+  let* _ := ensure ((0 <? frame_count) || negb (is_nil shots)) in
+  let shots' := if is_nil shots then [mkShot frame_count [] []] else shots in
+  let long := match o_long with Some b => b | None => g_long c end in
+  let c2 := fixup_l1 (mkG (g_cm40 c) long frame_count (g_min c) (g_max c) (Some v40) (g_l5 c) l6 (g_defaults c) shots') in
+  let* l := generate_list c2 base in
+  encode_all p l.
